@@ -714,6 +714,16 @@ int main(int argc, char **argv) {
 			s2k_case(S2K_HASHES[hi], sk, pw, rnd_oct(8), iter, gen().below(T ? 96 : 40), true);
 		}
 	}
+	if (on("s2k")) {
+		// RFC 4880 3.7.1.3: "if the octet count is less than the size of the salt plus passphrase, the full salt plus passphrase
+		// will be hashed even though that is greater than the octet count": passphrases at and above count - 8, every hash, both modes
+		static const struct { unsigned c; size_t len; } LONG[] = { {0, 1015}, {0, 1016}, {0, 1017}, {0, 1100}, {0, 2500}, {1, 1081}, {16, 2040}, {16, 2041}, {16, 3000}, {40, 6200} };
+		for (size_t hi = 0; hi < 6; hi++) for (size_t li = 0; li < (T ? 10u : 6u); li++) for (int iter = 0; iter < 2; iter++) {
+			const auto &L = LONG[T ? li : (li * 3 + hi) % 10];
+			std::string pw = S(rnd_oct(L.len)); for (auto &ch : pw) if (!ch) ch = 'y';
+			s2k_case(S2K_HASHES[hi], (hi % 2) ? 32 : 16, pw, rnd_oct(8), iter, L.c, true);
+		}
+	}
 	if (on("fpr")) {
 		for (size_t n = 0; n <= (T ? 300u : 80u); n++) fpr_case(rnd_oct(n));
 		static const size_t FL[] = { 255, 256, 257, 65535, 65536, 65537, 70000 };
